@@ -24,29 +24,7 @@ WATER = "config_files/2018_JCP_149_064113/water/single_molecule.ini"
 DIPOLE_MOTION = "config_files/2018_JCP_149_064113/dipoles/dipole_motion.ini"
 
 
-def water_switch_overrides():
-    """single water molecule with molecule/atom mode switching added (three point masses per composite object;
-    no shipped configuration combines the switcher with more than two)"""
-    return {
-        "TagActivator": {"taggers": "harmonic (factor_type_map_in_state_tagger), bending (factor_type_map_in_state_tagger), "
-                                    "sampling (no_in_state_tagger), end_of_chain (active_global_state_in_state_tagger), "
-                                    "end_of_run (no_in_state_tagger), start_of_run (no_in_state_tagger), "
-                                    "leaf_to_root (active_root_unit_in_state_tagger), "
-                                    "root_to_leaf (active_root_unit_in_state_tagger)"},
-        "RootToLeaf": {"create": "harmonic, bending, leaf_to_root, end_of_chain", "trash": "root_to_leaf, end_of_chain",
-                       "activate": "harmonic, bending, leaf_to_root", "deactivate": "root_to_leaf",
-                       "event_handler": "root_to_leaf_mode (root_leaf_unit_active_switcher)"},
-        "RootToLeafMode": {"chain_length": "0.7", "aim_mode": "leaf_unit_active"},
-        "LeafToRoot": {"trash": "harmonic, bending, leaf_to_root, end_of_chain", "create": "root_to_leaf, end_of_chain",
-                       "activate": "root_to_leaf", "deactivate": "harmonic, bending, leaf_to_root",
-                       "event_handler": "leaf_to_root_mode (root_leaf_unit_active_switcher)"},
-        "LeafToRootMode": {"chain_length": "0.69", "aim_mode": "root_unit_active"},
-        "StartOfRun": {"create": "harmonic, bending, sampling, end_of_chain, end_of_run, leaf_to_root",
-                       "activate": "harmonic, bending, sampling, leaf_to_root, end_of_run, end_of_chain",
-                       "deactivate": "root_to_leaf"},
-        "EndOfRun": {"trash": "end_of_chain, harmonic, bending, end_of_run, leaf_to_root, root_to_leaf"},
-        "SingleIndependentActivePeriodicDirectionEndOfChainEventHandler": {"chain_time": "0.5"},
-    }
+water_switch_overrides = hist.water_switch_overrides
 
 
 def jobs(ctx):
@@ -54,10 +32,7 @@ def jobs(ctx):
     # several composite objects: the chain leaves a composite object whose velocity was accumulated from inexact
     # weighted velocity changes (rotated velocities of hard-disk dipoles; three point masses after a mode switch)
     several = [(c, {"RandomInputHandler": {"number_of_root_nodes": 3}}) for c in cfgs if "hard_disk" in c]
-    ov = water_switch_overrides()
-    ov["RandomInputHandler"] = {"number_of_root_nodes": 3}
-    several.append((WATER, ov))
-    return [(c, {}) for c in cfgs] + [(WATER, water_switch_overrides())] + several + hist.crowded_jobs(cfgs) \
+    return [(c, {}) for c in cfgs] + several + hist.crowded_jobs(cfgs) \
         + hist.variations(ctx, cfgs, ctx.n(8, 80))
 
 
